@@ -180,7 +180,7 @@ def c04_scenarios(tier):
         sn.close_streams = True
         out.append(("c04", sn.describe(), {"max_dev": 0 if tier == "quick" else 1, "sequences": None}))
     # the surroundings of a run: records of an earlier (failed / successful) run on disk, a listener attached
-    ctxs = [["prior-failed"], ["listener"], ["foreign"]] if tier == "quick" else [["prior-failed"], ["prior-ok"], ["listener"], ["prior-failed", "listener"], ["foreign"], ["foreign", "prior-failed", "listener"]]
+    ctxs = [["prior-failed"], ["listener"], ["foreign"], ["verbose"]] if tier == "quick" else [["prior-failed"], ["prior-ok"], ["listener"], ["prior-failed", "listener"], ["foreign"], ["foreign", "prior-failed", "listener"], ["verbose"], ["verbose", "listener"]]
     for sh in shapes:
         ts = shape_targets(sh)
         for ctx in ctxs:
@@ -415,7 +415,7 @@ def c06_scenarios(tier):
                 for (c, t) in ([positions[0]] if tier == "quick" else [positions[0], positions[-1]]):
                     out.append(("c06", {"shape": sh, "faults": [[c, t, "exit", code]]}, {"max_dev": 0}))
         # the same with an earlier run's records on disk / a listener attached
-        for ctx in ([["prior-failed"], ["listener"], ["foreign"]] if tier == "quick" else [["prior-failed"], ["prior-ok"], ["listener"], ["prior-failed", "listener"], ["foreign"], ["foreign", "listener"]]):
+        for ctx in ([["prior-failed"], ["listener"], ["foreign"], ["verbose"]] if tier == "quick" else [["prior-failed"], ["prior-ok"], ["listener"], ["prior-failed", "listener"], ["foreign"], ["foreign", "listener"], ["verbose"]]):
             out.append(("c06", {"shape": sh, "faults": []}, {"context": ctx}))
             for (c, t) in (positions[0], positions[-1]):
                 out.append(("c06", {"shape": sh, "faults": [[c, t, "exit", 1]]}, {"context": ctx}))
@@ -852,7 +852,7 @@ def c05_scenarios(tier):
                 out.append(("c05", {"shape": sh, "modes": [[t, c, m] for (t, c), m in sorted(modes.items())], "args": a, "commands": ["build", "test"],
                                     "sequences": None, "checkpoint": None, "changed": None, "explicit": explicit, "deps": deps, "sigkill": [[kt, kc]]}, {}))
         # the surroundings of a run: an earlier failed / successful run's records on disk, a listener attached
-        for ctx in ([["prior-failed"], ["listener"]] if tier == "quick" else [["prior-failed"], ["prior-ok"], ["listener"], ["prior-failed", "listener"]]):
+        for ctx in ([["prior-failed"], ["listener"], ["verbose"]] if tier == "quick" else [["prior-failed"], ["prior-ok"], ["listener"], ["prior-failed", "listener"], ["verbose"]]):
             for (cp, changed, explicit, deps) in [(None, None, None, False), ("head", paths[-1:], None, False), (None, None, paths[-1:], True)]:
                 a = ["-c", "build", "test"] + (["-t"] + explicit + ["--deps"] if explicit else [])
                 out.append(("c05", {"shape": sh, "modes": [[t, c, m] for (t, c), m in sorted(modes.items())], "args": a, "commands": ["build", "test"],
@@ -904,6 +904,8 @@ def c05_task(desc):
             r.mr("run", *desc["args"], env=r.trace_env())
         if "listener" in ctx:
             apply_context(s, r, sn, ["listener"])
+        if "verbose" in ctx:
+            r.global_flags = ["-vv"]
         before = r.mr("analyze", "--target-groups")
         bdoc = before.json()
         r.clear_traces()
@@ -1007,6 +1009,9 @@ def apply_context(s, r, sn, ctx):
     if "foreign" in ctx:
         # everything from here on is invoked as `-f <abs config>` from an unrelated directory
         r.foreign_cwd()
+    if "verbose" in ctx:
+        # every invocation from here on also prints its own diagnostics (-vv)
+        r.global_flags = ["-vv"]
     if "prior-failed" in ctx:
         r.set_script(sn.targets[0]["path"], sn.commands[0], ["err " + b"earlier failure\n".hex(), "exit 1"])
         pr = r.mr("run", *sn.args, env=r.trace_env())
